@@ -130,6 +130,10 @@ if keep:
         shutil.copy(os.path.join(out, f), dst)
     meta["confirmed_by_lead"] = {"demo_on_unchanged_rc": rc0, "demo_with_change_rc": rc1, "builds": rcb == 0,
         "check_cmd": "VERIF_REPO=<worktree with patch> VERIF_SEED=%s ./check %s --tier %s" % (seed, prop, tier), "check_rc": rcc, "check_fingerprints": res["check_fingerprints"]}
+    if checkonly and prevmeta and "existing_tests_with_change" in prevmeta:
+        meta["confirmed_by_lead"]["existing_tests_with_change"] = prevmeta["existing_tests_with_change"]
+    if checkonly and prevmeta and prevmeta.get("check_rc") == 0:
+        meta["confirmed_by_lead"]["missed_by_the_check_as_it_stood"] = True
     if "suite" in res:
         meta["confirmed_by_lead"]["existing_tests_with_change"] = [{k: x[k] for k in ("pkg", "rc", "failed")} for x in res["suite"]]
     json.dump(meta, open(os.path.join(dst, "meta.json"), "w"), indent=1)
